@@ -25,6 +25,7 @@ META = {
                     "ties within 1e-12 in the parent choice are accepted"],
 }
 REQUIRED_CLASSES = ["entry:findPath", "obstruction:straddles_bounds"]
+REQUIRED_REACH = ['path_planning/pathplanner.py:RRTStar.generalGenerateTree', 'path_planning/pathplanner.py:RRTStar.findPath', 'path_planning/pathplanner.py:RRTStar.findPathGeneral', 'path_planning/pathplanner.py:RRTStar.obstruction']
 REQUIRED_CLAUSES = ["root", "count", "reaches_root", "cost_recurrence", "edges_free", "accept_band", "parent_choice", "path", "budget_one"]
 
 
